@@ -135,6 +135,36 @@ def distinct(*xs):
     return all(x != y for i, x in enumerate(xs) for y in xs[i + 1:])
 
 
+def sock_data(sock):
+    """The whole incoming byte stream of a (fake) socket, as a list of ints."""
+    return list(sock.data)
+
+
+def sock_pos(sock):
+    """How many incoming bytes have been consumed."""
+    return sock.pos
+
+
+def sock_sent(sock):
+    """The texts sent so far, in order."""
+    return list(sock.sent)
+
+
+def utf8(s):
+    """UTF-8 bytes of a str as a list of ints."""
+    return list(s.encode('utf-8'))
+
+
+def bytes_seq(b):
+    """A bytes value as a list of ints."""
+    return list(b)
+
+
+def new_socket(data, pos):
+    from .ext import FakeSocket
+    return FakeSocket(bytes(data), pos)
+
+
 def set_ite(c, a, b):
     """The set a if c else b, as a *value* (a fresh set: identity of a / b is not preserved)."""
     return set(a) if c else set(b)
